@@ -95,7 +95,10 @@ def run_scenario(sc: dict[str, Any]) -> dict[str, Any]:
             async def widx(name, **_):
                 index_times.setdefault('w:' + name, sim.now); return {'w': name}
             kopf.index(GROUP, VERSION, 'widgets', registry=reg, id='widx')(widx)
-            for nm in gate['things']: sim.create(nm, {'x': 1}, labels={'ix': 'yes'})
+            nss = gate.get('namespaces')        # the operator serves these namespaces one by one: a watcher (and a listing) per namespace
+            if nss:
+                for ns in nss: sim.srv.create(sim.srv.find('namespaces'), None, ns, {})
+            for k_, nm in enumerate(gate['things']): sim.create(nm, {'x': 1}, labels={'ix': 'yes'}, **({'ns': nss[k_ % len(nss)]} if nss else {}))
             for nm in gate['widgets']: sim.create(nm, {'x': 1}, res=widgets)
             if gate.get('gadgets'):      # a handled kind WITHOUT an index of its own: its handlers wait for the indices of the others, too
                 gadgets = sim.srv.add_resource(ResDef(GROUP, VERSION, 'gadgets', 'Gadget', namespaced=True))
@@ -104,12 +107,12 @@ def run_scenario(sc: dict[str, Any]) -> dict[str, Any]:
 
             def policy(req):
                 if req.route.get('kind') == 'list' and req.route.get('plural') in ('things', 'widgets'):
-                    d = gate['delay'][req.route['plural']]
+                    d = gate['delay'].get(f"{req.route['plural']}@{req.route.get('ns')}", gate['delay'].get(req.route['plural'], 0))
                     return Plan(pre=d)
                 return None
             sim.srv.policy = policy
         settings = sim.settings(queueing__worker_limit=(gate or {}).get('limit') or None)
-        op = sim.operator('op1', reg, settings)
+        op = sim.operator('op1', reg, settings, **(dict(clusterwide=False, namespaces=list(gate['namespaces'])) if gate and gate.get('namespaces') else {}))
         x = {o: 0 for o in OBJS}
 
         def do(opn, o):
@@ -180,6 +183,10 @@ def gate_scenarios() -> list[dict[str, Any]]:
             out.append({'id': f'gate-{dt}-{dw}-{limit}-{late}', 'table': {}, 'env': [(late, 'add', 'c')], 'end': 40,
                         'gate': {'things': ['a', 'b'], 'widgets': ['w1'], 'delay': {'things': dt, 'widgets': dw}, 'limit': limit}})
         if limit == 0:
+            # the operator serves two namespaces: the listing of the indexed kind in one namespace ends long before the other's
+            out.append({'id': f'gate-{dt}-{dw}-{limit}-two-namespaces', 'table': {}, 'env': [], 'end': 40,
+                        'gate': {'things': ['a', 'b'], 'widgets': [], 'namespaces': ['ns1', 'ns2'],
+                                 'delay': {'things@ns1': dt, 'things@ns2': dw + 2, 'widgets': 0}, 'limit': 0}})
             out.append({'id': f'gate-{dt}-{dw}-{limit}-unindexed-kind', 'table': {}, 'env': [], 'end': 40,
                         'gate': {'things': ['a', 'b'], 'widgets': ['w1'], 'gadgets': ['g1'], 'delay': {'things': dt, 'widgets': dw}, 'limit': limit}})
     return out
